@@ -310,8 +310,11 @@ fn has_preceding_sibling_section(text: &str, line: usize) -> bool {
 /// the body of the section at `line` (up to the next heading) holds a rule or a table directly
 fn section_has_rule_or_table(text: &str, line: usize) -> bool {
     let lines: Vec<&str> = text.lines().collect();
+    // the converted section reaches to the next heading of the same or a higher level (its sub-sections go with it)
+    let own = lines.get(line).map(|l| heading_level(l)).unwrap_or(0);
     for l in lines.iter().skip(line + 1) {
-        if heading_level(l) > 0 {
+        let h = heading_level(l);
+        if h > 0 && (own == 0 || h <= own) {
             break;
         }
         // also nested in quotes and list items of the section
